@@ -343,7 +343,7 @@ def gen_readres(src: str) -> str:
     return f"""(* GENERATED by translator/gen_readres.py from src/datashard/{{transaction,snapshot_manager,metadata_manager}}.py -- do not edit *)
 From Coq Require Import List String.
 Import ListNotations.
-Open Scope string_scope.
+Local Open Scope string_scope.
 
 (* per read API of Table: (least, greatest) number of MetadataManager.refresh() calls = pointer resolutions on any
    path through the API that returns *)
